@@ -109,6 +109,20 @@ def run_corpus(prop, rep):
             rep.extra["rename_all_locals_silent"] = True
     finally:
         shutil.rmtree(d, ignore_errors=True)
+    # the same for the names of file-local functions (mapped back onto rules/ref/static_functions.tsv by signature and order)
+    env = dict(os.environ, VERIF_RENAME_STATICS="1", VERIF_TIER="quick")
+    d = tempfile.mkdtemp(prefix="verif-rn-")
+    try:
+        env["VERIF_EVIDENCE_DIR"] = d + "/evidence"
+        env["VERIF_REPLAY_DIR"] = d + "/replay"
+        r = subprocess.run([os.path.join(VERIF, "check"), prop, "--tier", "quick"], env=env,
+                           stdout=subprocess.PIPE, stderr=subprocess.STDOUT, universal_newlines=True)
+        if r.returncode != 0:
+            rep.broke("renaming every static function raises an alarm (exit %d): %s" % (r.returncode, r.stdout[-400:]))
+        else:
+            rep.extra["rename_all_statics_silent"] = True
+    finally:
+        shutil.rmtree(d, ignore_errors=True)
     return n
 
 
